@@ -237,6 +237,10 @@ class Inventory:
                 and len(x[1][1][2]) == 2 and path is not None and upto is not None):
             c = x[1][1]
             it = c[2][0]
+            # (position() counts the elements it has consumed: enumerate() in between changes what the closure sees,
+            # not the count)
+            while isinstance(it, tuple) and it and it[0] == "call" and method_name(it[1]) == "enumerate" and len(it[2]) == 1:
+                it = it[2][0]
             if isinstance(it, tuple) and it[0] == "iter" and mir.strip(it[1]) == v:
                 start = None
                 for j, ev in enumerate(path.events[:upto]):
